@@ -139,13 +139,14 @@ CLAIMS["C16"] = claim("lean-model (trace semantics + footprint table) + harness 
     "sync/atomic, close/receive; any number of goroutines, locks, locations, any interleaving): the lockset theorem (accesses under a common "
     "lock, writes exclusive => ordered by happens-before => no data race), atomic discipline, close-before-receive and init-before-publish "
     "orderings, and soundness of the footprint table's lock clause for that semantics; the semantics does call the known F9a shape a race. "
-    "(2) Kernel-decided theorems over the complete footprint table of the public API (165 accesses with their "
+    "(2) Kernel-decided theorems over the complete footprint table of the public API (172 accesses with their "
     "guards): every unprotected conflicting pair is one of the two known findings (in-place expiry write of ExpireAll; plain struct "
     "copies vs the atomic LRU/LFU counter), every other location (shard maps, sync.Map, key locks and lock records, label index, "
     "deleters, lastRun, expirationsSet) is disciplined, and the table is race free once the two repairs are applied. Implementation side: "
     "all pairs (quick: a seeded two thirds) of a 13-op backend and a 10-op frontend catalogue run concurrently under the race detector; "
     "every report must be one the model predicts (else VIOLATION); predicted ones are listed as known findings.",
-    "Partial: the table is hand-written and tied to the code only by the detector (plus the access-fact tie of tools/gokernel where present), which sees only executions that happen; "
+    "Partial: the table is hand-written; it is tied to the code by tools/gofacts (every access the source makes, with the lock held at it as read off the function text, "
+    "must be covered by a row with that location, direction and guard - regenerated on every run) and by the detector, which sees only executions that happen; "
     "that the trace semantics matches the Go memory model document and that sync.Map is internally synchronised are assumed.",
     "Lean 4 proof (induction over traces for the lockset theorem; decide +kernel over the footprint table) + race-detector correspondence", "DESIGN.md §6 C16")
 
